@@ -26,12 +26,17 @@ MultiPower(aggs) == \E r \in Reporters(aggs) : Cardinality({ aggs[x[1]][x[2]].po
 Dev_F08(aggs) == "F-08" \in KNOWN /\ MultiPower(aggs)
 
 \* expected credit of selector s over all payouts, minimum and maximum over the admissible snapshots
-ExpectedSet(R, aggs, s) ==
-  \* set of possible totals for s from this payout (one choice of snapshot per reporter; snapshots of one reporter normally coincide)
+\* expected total for s from one payout, given for every reporter WHICH of its recorded stake snapshots divides its part
+\* (a reporter with several reports in one payout has several; its whole part is divided by one of them - the code takes
+\* the first report's - which is how "the stake recorded when the report was made" is read for that case)
+ExpectedWith(R, aggs, s, f) ==
   LET Rs == Reporters(aggs) IN
-  NSum([r \in Rs |-> LET snap == CHOOSE sn \in Snapshots(aggs, r) : TRUE
+  NSum([r \in Rs |-> LET snap == f[r]
                          rate == aggs[RateOf(aggs, r)[1]][RateOf(aggs, r)[2]].comm.mag
                      IN IF IsZero(snap.total.mag) THEN Zero ELSE Expected24(R, aggs, r, snap, rate, s)], Rs)
+Assignments(aggs) == { f \in [Reporters(aggs) -> UNION { Snapshots(aggs, r) : r \in Reporters(aggs) }] : \A r \in Reporters(aggs) : f[r] \in Snapshots(aggs, r) }
+AnyAssignment(aggs) == [r \in Reporters(aggs) |-> CHOOSE sn \in Snapshots(aggs, r) : TRUE]
+ExpectedSet(R, aggs, s) == ExpectedWith(R, aggs, s, AnyAssignment(aggs))
 
 \* rounds whose aggregate is a cycle-list / bridge-deposit aggregate: decided per report at submission time
 \* (the report was made while the query was the scheduled cycle-list query or is a bridge deposit)
@@ -46,8 +51,10 @@ Matches(e, tbrI) ==
       S == (DOMAIN tips) \cup (DOMAIN post)
       tipP == TipPayouts(cl)
       tbrPaid == tbrI # {} /\ ~IsZero(e.tbrpre)
-      exp(s) == NSum([i \in tipP |-> ExpectedSet(cl[i].amt, AsAggs(cl, {i}), s)], tipP)
-                ++ (IF tbrPaid THEN ExpectedSet(e.tbrpre, AsAggs(cl, tbrI), s) ELSE Zero)
+      tbrAggs == AsAggs(cl, tbrI)
+      exp(s, f) == NSum([i \in tipP |-> ExpectedSet(cl[i].amt, AsAggs(cl, {i}), s)], tipP)
+                   ++ (IF tbrPaid THEN ExpectedWith(e.tbrpre, tbrAggs, s, f) ELSE Zero)
+      Fs == IF tbrPaid THEN Assignments(tbrAggs) ELSE {<<>>}
       delta18(s) == IF Mag18(post, s).neg \/ Mag18(tips, s).neg THEN Zero ELSE Monus(Mag18(post, s).mag, Mag18(tips, s).mag)
       totalR == NSum([i \in tipP |-> cl[i].amt], tipP) ++ (IF tbrPaid THEN e.tbrpre ELSE Zero)
       nent == Cardinality(S) + 2
@@ -58,7 +65,7 @@ Matches(e, tbrI) ==
   IN
   (IF cl = <<>> \/ (\E s \in S : Mag18(post, s).neg \/ Mag18(tips, s).neg) THEN {}
    ELSE (IF Within(NSum([s \in S |-> delta18(s)], S) ** E6, totalR ** E24, tol24(4 * nent)) THEN {} ELSE {"CreditsSumToTheReward"})
-        \cup (IF \A s \in S : Within(delta18(s) ** E6, exp(s), tol24(nent)) THEN {} ELSE {"ShareProportionalToPowerAndStakeCommissionOnce"}))
+        \cup (IF \E f \in Fs : \A s \in S : Within(delta18(s) ** E6, exp(s, f), tol24(nent)) THEN {} ELSE {"ShareProportionalToPowerAndStakeCommissionOnce"}))
   \cup (IF tbrPaid /\ ~IsZero(e.tbrpost) THEN {"TimeBasedRewardUsesWholePool"} ELSE {})
   \cup (IF ~tbrPaid /\ e.tbrpost # e.tbrpre THEN {"TimeBasedRewardOnlyForCycleListAndDepositAggregates"} ELSE {})
 
